@@ -169,10 +169,15 @@ def run():
         ck.event("valid configurations run to completion" if not val["bad"] else "valid configurations with a violation")
         for key, what in val["bad"]:
             ck.violation(key, f"{what}   row={row}", dict(row=row, seed=tasks[i][1]["seed"]))
-    variants = [dict(), dict(sample="rwm", clustering=False), dict(resample="syst", ess_ratio=1.0), dict(n_max_clusters=2, normalize=False)]
+    variants = [dict(), dict(sample="rwm", clustering=False), dict(resample="syst", ess_ratio=1.0), dict(n_max_clusters=2, normalize=False),
+                dict(volume_variation=1.0), dict(volume_variation=0.3, ess_ratio=3.5), dict(periodic=[0]), dict(reflective=[1]), dict(periodic=[1], reflective=[0]),
+                dict(blobs_dtype="float64"), dict(vectorize=True), dict(pool=2), dict(pool=PoolObject()), dict(cluster_every=3, n_steps=2, n_max_steps=2),
+                dict(n_particles=None), dict(random_state=3, output_label="x")]
     for name, ov in INVALID:
-        for vi, var in enumerate(variants if not ck.quick else variants[:2]):
+        for vi, var in enumerate(variants):
             if any(k in var for k in ov):
+                continue
+            if "vectorize" in ov and "blobs_dtype" in var or ("blobs_dtype" in ov and var.get("vectorize")):
                 continue
             try:
                 bad = invalid_case(name, ov, var)
@@ -190,6 +195,6 @@ def run():
         rule="valid: greedy 3-wise covering array (quick: one array, ~190 rows, measured coverage of feasible triples in tables; thorough: four arrays) over 16 constructor options (kernel, resampler, clustering, normalize, "
              "cluster_every, n_max_clusters, split_threshold, metric mode/ess_ratio, n_steps/n_max_steps, vec/scalar/blobs, boundary kinds, pool "
              "{None,1,2,object}, save_every, n_dim, n_particles incl. the default 2*n_dim), each row in its own process with a 400-iteration "
-             "budget; invalid: 34 one-factor violations x context variants; non-trivial = the run executed at least one iteration",
+             "budget; invalid: 34 one-factor violations x 16 context variants (other metric mode, boundaries, blobs, vectorised, pools, cadence, defaults); non-trivial = the run executed at least one iteration",
         assumptions=["a wall-clock watchdog firing is inconclusive, never a violation"],
     )
